@@ -29,17 +29,21 @@ def gen_project(r):
     n = r.randint(3, 7)
     names = []
     for i in range(n):
-        names.append(("sub/" if r.random() < 0.3 else "") + "n%d" % i)
-    deps, lines, kind = {}, {}, {}
+        # (a name may end in white space: the record that names it must come through the viewer unchanged)
+        names.append(("sub/" if r.random() < 0.3 else "") + "n%d" % i + (r.choice([" ", "\t"]) if r.random() < 0.08 else ""))
+    deps, lines, kind, mid = {}, {}, {}, {}
     for i, nm in enumerate(names):
         deps[nm] = r.sample(names[:i], min(i, r.choice([0, 1, 2, 2])))
         if deps[nm] and r.random() < 0.2:
             deps[nm].append(r.choice(deps[nm]))          # the same dependency asked for twice
         k = 0 if r.random() < 0.3 else r.randint(1, 4)
         # some lines are indented, some end in blanks, some both (clean_line trims the END only)
-        lines[nm] = ["%sL-%s-%d%s" % ("    " if r.random() < 0.2 else "", nm.replace("/", "_"), q, "   " if r.random() < 0.25 else "")
+        lines[nm] = ["%sL-%s-%d%s" % ("    " if r.random() < 0.2 else "", tagof(nm), q, "   " if r.random() < 0.25 else "")
                      for q in range(k)]
         kind[nm] = r.choice(["plain"] * 5 + ["fail", "partial", "partial_only"])
+        # text left in mid-line before asking for a dependency: the record of the nested
+        # command then stands after it on the same physical line (F64)
+        mid[nm] = [j for j in range(len(deps[nm])) if r.random() < 0.3]
     if r.random() < 0.3:
         kind[r.choice(names)] = r.choice(["recordlike", "ghostdo", "baddone"])
     root = names[-1]
@@ -48,7 +52,11 @@ def gen_project(r):
             deps[root].append(nm)
     if kind[root] == "fail":
         kind[root] = "plain"
-    return names, deps, lines, kind, root
+    return names, deps, lines, kind, root, mid
+
+
+def tagof(nm):
+    return nm.replace("/", "_").strip()
 
 
 def relto(frm, to):
@@ -56,27 +64,31 @@ def relto(frm, to):
     return os.path.relpath(to, d) if d else to
 
 
-def script(nm, deps, lines, kind, src):
+def script(nm, deps, lines, kind, src, mid=()):
     L = []
     half = len(lines) // 2
     for l in lines[:half]:
         L.append("echo '%s' >&2" % l)
-    L.append("redo-ifchange %s" % relto(nm, src))
-    for d in deps:
-        L.append("redo-ifchange %s || true" % relto(nm, d))
+    L.append("redo-ifchange '%s'" % relto(nm, src))
+    for j, d in enumerate(deps):
+        if j in mid:
+            L.append("printf 'M-%s-%d ' >&2" % (tagof(nm), j))
+        L.append("redo-ifchange '%s' || true" % relto(nm, d))
+        if j in mid:
+            L.append("echo '' >&2")      # ends the line if the nested command wrote nothing
     for l in lines[half:]:
         L.append("echo '%s' >&2" % l)
     if kind == "recordlike":
-        L.append("echo '@@REDO:warning:7:1.5000@@ made up by %s' >&2" % nm.replace("/", "_"))
+        L.append("echo '@@REDO:warning:7:1.5000@@ made up by %s' >&2" % tagof(nm))
     if kind == "ghostdo":
         L.append("echo '@@REDO:do:1:1.0000@@ ghost' >&2")        # names a target redo does not know
     if kind == "baddone":
         L.append("echo '@@REDO:done:1:1.0@@ zzz' >&2")            # a done record without a status
     if kind in ("partial", "partial_only"):
-        L.append("printf 'tail-%s' >&2" % nm.replace("/", "_"))
+        L.append("printf 'tail-%s' >&2" % tagof(nm))
     if kind == "fail":
         L.append("exit 3")
-    L.append("echo out-%s" % nm.replace("/", "_"))
+    L.append("echo out-%s" % tagof(nm))
     return "\n".join(L) + "\n"
 
 
@@ -92,7 +104,7 @@ def read_state(root):
 
 
 def one(bindir, r, idx):
-    names, deps, lines, kind, root = gen_project(r)
+    names, deps, lines, kind, root, mid = gen_project(r)
     pr = e2e.Project(bindir, "catlog")
     try:
         os.makedirs(os.path.join(pr.root, "sub"), exist_ok=True)
@@ -101,7 +113,7 @@ def one(bindir, r, idx):
         for nm in names:
             ls = [] if kind[nm] == "partial_only" else lines[nm]
             with open(os.path.join(pr.root, nm + ".do"), "w") as f:
-                f.write(script(nm, deps[nm], ls, kind[nm], "src"))
+                f.write(script(nm, deps[nm], ls, kind[nm], "src", mid[nm]))
         env = dict(pr.env)
         for k in ("REDO_LOG", "REDO_PRETTY", "REDO_COLOR"):
             env.pop(k, None)
@@ -128,7 +140,7 @@ def one(bindir, r, idx):
                 roots = ["./" + roots[0]] + roots[1:]
             q = sh(["redo-log", "-r", "--no-pretty", "--no-color", "--no-status"] + (["-u"] if u else []) + roots)
             queries.append({"u": u, "roots": roots, "rc": q.returncode, "out": q.stdout, "err": q.stderr.decode(errors="replace")[-300:]})
-        return {"names": names, "deps": deps, "kind": kind, "lines": lines, "second_build": second, "entries": ent, "queries": queries}
+        return {"names": names, "deps": deps, "kind": kind, "lines": lines, "mid": mid, "second_build": second, "entries": ent, "queries": queries}
     finally:
         pr.close()
 
@@ -142,11 +154,13 @@ def property_oracle(p, q):
     attr, _ = e2e_c18.attribute(q["out"].decode(errors="replace"), p["names"])
     bad = []
     for nm in p["names"]:
-        tag = nm.replace("/", "_")
+        tag = tagof(nm)
         want = [] if p["kind"][nm] == "partial_only" else [l.rstrip() for l in p["lines"][nm]]
+        half = len(want) // 2
+        want = want[:half] + ["M-%s-%d" % (tag, j) for j in p["mid"][nm]] + want[half:]
         if p["kind"][nm] in ("partial", "partial_only"):
             want = want + ["tail-" + tag]
-        mine = lambda l: l.strip().startswith("L-%s-" % tag) or l == "tail-" + tag
+        mine = lambda l: l.strip().startswith("L-%s-" % tag) or l == "tail-" + tag or l.startswith("M-%s-" % tag)
         got = []
         for key, ls in attr.items():
             k = None if key is None else os.path.normpath(key)
@@ -192,7 +206,7 @@ def run(bindir, r, n):
     oracle_bad = []
     oracle_checked = 0
     dist = {"queries": len(cases), "with_u": 0, "two_roots": 0, "second_build": sum(1 for p in projects if p["second_build"]),
-            "unchanged_records": 0, "tails": 0, "recordlike": 0, "failing": 0, "subdir_targets": 0, "model_status": {}}
+            "unchanged_records": 0, "tails": 0, "text_then_record_lines": 0, "recordlike": 0, "failing": 0, "subdir_targets": 0, "model_status": {}}
     nontrivial = set()
     for (pi, q), (st, mb) in zip(where, res):
         p = projects[pi]
@@ -207,6 +221,11 @@ def run(bindir, r, n):
                         "deps": p["deps"], "kind": p["kind"]})
         if real.count(b"@@REDO:do:") >= 2:
             nontrivial.add(real)
+        if q["rc"] != 0 and not any(k in ("recordlike", "ghostdo", "baddone") for k in p["kind"].values()):
+            oracle_checked += 1
+            oracle_bad.append({"oracle": "redo-log -r must replay the log of a finished build (no script printed anything that looks like a record)",
+                               "roots": q["roots"], "u": q["u"], "deps": p["deps"], "kind": p["kind"],
+                               "detail": {"exit_status": q["rc"], "stderr": q["err"]}, "output": real.decode(errors="replace")[-1200:]})
         if q["rc"] == 0:
             ob = property_oracle(p, q)
             if ob is not None:
@@ -219,6 +238,7 @@ def run(bindir, r, n):
             if c:
                 dist["unchanged_records"] += c.count(b"@@REDO:unchanged:")
                 dist["tails"] += (not c.endswith(b"\n"))
+                dist["text_then_record_lines"] += sum(1 for l in c.split(b"\n") if b"@@REDO:" in l and not l.startswith(b"@@REDO:"))
         dist["recordlike"] += sum(1 for k in p["kind"].values() if k in ("recordlike", "ghostdo", "baddone"))
         dist["failing"] += sum(1 for k in p["kind"].values() if k == "fail")
         dist["subdir_targets"] += sum(1 for nm in p["names"] if "/" in nm)
